@@ -107,7 +107,7 @@ def closestSurface2 (verts : List (V2 α)) (p : V2 α) : SP2 α × Bool :=
 
 /-- `mesh.surf_closest_to(p)`: closest point by exhaustive scan over the faces, normal of the
     winning face; the flag says that the closest point is not interior to that face (edge / vertex:
-    the face is a matter of tie-breaking). -/
+    the face is a matter of tie-breaking) or that another face is as close to within rounding. -/
 def closestSurface3 (verts : List (V3 α)) (faces : List (Nat × Nat × Nat)) (p : V3 α) : SP3 α × Bool :=
   let z : V3 α := ⟨0, 0, 0⟩
   let best := faces.foldl (fun (best : Option (V3 α × α × V3 α)) f =>
@@ -127,7 +127,12 @@ def closestSurface3 (verts : List (V3 α)) (faces : List (Nat × Nat × Nat)) (p
     let h := V3.dot nh (V3.sub p q)
     -- interior to the face exactly when the offset is along the normal
     let eps : α := Scalar.ofRat 1 1000000000
-    (⟨q, nh⟩, decide (eps * (1 + d2) < sabs (d2 - h * h)))
+    -- ... or when a second face is equally close to within rounding (two faces facing each other
+    -- across the point): which of them wins is a matter of tie-breaking, as in 2-D
+    let rivals := faces.foldl (fun (k : Nat) f =>
+      let r := closestOnTriangle p (verts.getD f.1 z) (verts.getD f.2.1 z) (verts.getD f.2.2 z)
+      if r.2 ≤ d2 * (1 + eps) then k + 1 else k) 0
+    (⟨q, nh⟩, decide (eps * (1 + d2) < sabs (d2 - h * h)) || decide (2 ≤ rivals))
 
 /-- the 2-D problem of `points_to_curve` -/
 def problem2 (verts pts : List (V2 α)) : AlignProblem (V2 α) (SP2 α × Bool) (α × α × α) α :=
